@@ -45,12 +45,13 @@ func ckksCfgs(tier string) []cklib.Cfg {
 		mk("std-logN6-P1", std, 6, q4, p1, -1, 0), mk("ci-logN6-P1", ci, 6, q4, p1, -1, 0), mk("std-logN5-P0", std, 5, q4, nil, -1, 6),
 		mk("std-logN7-P2-sparse4", std, 7, q4, p2, 4, 0), mk("std-logN7-P1", std, 7, q4, p1, -1, 0), mk("ci-logN7-P2-sparse5", ci, 7, q4, p2, 5, 0),
 		mk("std-logN6-P2", std, 6, q5, p2, -1, 0), mk("std-logN6-P0", std, 6, q4, nil, -1, 6), mk("ci-logN6-P2", ci, 6, q4, p2, -1, 0),
+		mk("std-logN7-P0", std, 7, q4, nil, -1, 6), mk("std-logN7-P2", std, 7, q5, p2, -1, 0), mk("ci-logN7-P1", ci, 7, q4, p1, -1, 0),
 	}
 	if tier == "thorough" {
 		// the real thorough tier: LogN 6-8 in every shape
 		cfgs = append(cfgs,
 			mk("std-logN6-P3", std, 6, q5, p3, -1, 0), mk("ci-logN6-P0", ci, 6, q4, nil, -1, 6),
-			mk("std-logN7-P0", std, 7, q4, nil, -1, 6), mk("std-logN7-P2", std, 7, q5, p2, -1, 0), mk("ci-logN7-P1", ci, 7, q4, p1, -1, 0),
+			mk("std-logN9-P1-sparse7", std, 9, q4, p1, 7, 0), mk("ci-logN9-P2-sparse6", ci, 9, q4, p2, 6, 0),
 			mk("std-logN7-P1-sparse5", std, 7, q4, p1, 5, 0), mk("ci-logN7-P2-sparse6", ci, 7, q4, p2, 6, 0),
 			mk("std-logN8-P1", std, 8, q4, p1, -1, 0), mk("std-logN8-P2-sparse6", std, 8, q4, p2, 6, 0), mk("ci-logN8-P1-sparse6", ci, 8, q4, p1, 6, 0),
 			mk("std-logN8-P2", std, 8, q4, p2, -1, 0), mk("ci-logN8-P1", ci, 8, q4, p1, -1, 0), mk("std-logN8-P0-sparse5", std, 8, q4, nil, 5, 6), mk("std-logN8-P3-sparse7", std, 8, q5, p3, 7, 0),
@@ -67,9 +68,9 @@ func worlds(tier string) []*world {
 	// BGV: t=97/193/257 plaintext ring = ciphertext ring; t=17 (LogN 4, 5) plaintext ring smaller (gap 2, 4);
 	// without P both the default keys and base-2^16 keys
 	ws = append(ws, bgvWorld(4, 1, 97, 0), bgvWorld(4, 0, 97, 0), bgvWorld(4, 0, 97, 16), bgvWorld(4, 2, 97, 0), bgvWorld(4, 1, 17, 0),
-		bgvWorld(5, 1, 193, 0), bgvWorld(5, 2, 193, 0), bgvWorld(5, 0, 193, 0), bgvWorld(5, 2, 17, 0), bgvWorld(6, 1, 257, 0))
+		bgvWorld(5, 1, 193, 0), bgvWorld(5, 2, 193, 0), bgvWorld(5, 0, 193, 0), bgvWorld(5, 2, 17, 0), bgvWorld(6, 1, 257, 0), bgvWorld(6, 2, 257, 0), bgvWorld(7, 1, 257, 0))
 	if tier == "thorough" {
-		ws = append(ws, bgvWorld(6, 2, 257, 0), bgvWorld(6, 0, 257, 16), bgvWorld(6, 1, 17, 0), bgvWorld(7, 1, 257, 0), bgvWorld(7, 2, 257, 0), bgvWorld(7, 0, 257, 0), bgvWorld(8, 1, 7681, 0), bgvWorld(8, 2, 7681, 0), bgvWorld(8, 1, 257, 0))
+		ws = append(ws, bgvWorld(6, 0, 257, 16), bgvWorld(6, 1, 17, 0), bgvWorld(7, 2, 257, 0), bgvWorld(7, 0, 257, 0), bgvWorld(8, 1, 7681, 0), bgvWorld(8, 2, 7681, 0), bgvWorld(8, 1, 257, 0))
 	}
 	return ws
 }
@@ -77,7 +78,7 @@ func worlds(tier string) []*world {
 func rwWorlds(tier string) []*rw {
 	ws := []*rw{newRW(4, 1, false), newRW(4, 0, false), newRW(4, 2, false), newRW(5, 1, false), newRW(4, 1, true), newRW(5, 2, true), newRW(4, 0, true)}
 	if tier == "thorough" {
-		ws = append(ws, newRW(6, 1, false), newRW(6, 2, false), newRW(6, 0, false), newRW(7, 1, false), newRW(6, 1, true), newRW(7, 2, true))
+		ws = append(ws, newRW(6, 1, false), newRW(6, 2, false), newRW(6, 0, false), newRW(7, 1, false), newRW(6, 1, true), newRW(7, 2, true), newRW(8, 1, false))
 	}
 	return ws
 }
